@@ -307,6 +307,67 @@ def prior(S, kind, where):
     S.prove_eq(lp, ref if isinstance(ref, np.ndarray) else np.array(ref, dtype=object).reshape(()), "%s prior log_prob (%s)" % (kind, where))
 
 
+def lkj(S, n, eta, cov):
+    """LKJPrior.log_prob(C) on a symbolic n x n correlation matrix = log c_n(eta) + (eta - 1) log det C, the documented (normalised)
+       density of the correlation matrix itself (det C written through its Cholesky pivots); LKJCovariancePrior adds the
+       standard-deviation prior of the marginal standard deviations"""
+    from torch.distributions import LKJCholesky
+    r = S.randn(n, n, scale=0.25)
+    Cm = torch.eye(n)
+    R = S.sym_tensor(r, "r")
+    Cs = np.empty((n, n), dtype=object)
+    for i in range(n):
+        for j in range(n):
+            if i == j:
+                Cs[i, j] = Sym.const(1.0)
+            else:
+                a, b = min(i, j), max(i, j)
+                Cm[i, j] = r[a, b]
+                Cs[i, j] = R[a, b]
+    S.put(Cm, Cs)
+    logc = float(LKJCholesky(n, eta).log_prob(torch.eye(n)))  # at C = I the Jacobian of L -> L L^T is 1: the normaliser itself
+    # Cholesky pivots of C (symbolic elimination): det C = prod pivots
+    M = Cs.copy()
+    piv = []
+    for j in range(n):
+        piv.append(M[j, j])
+        for i in range(j + 1, n):
+            f = M[i, j] / M[j, j]
+            for k in range(j, n):
+                M[i, k] = M[i, k] - f * M[j, k]
+    for pv in piv:
+        CTX.assume(gt_formula(pv, Sym.const(1e-3)))  # a valid (positive definite) correlation matrix
+    logdet = sum((sym_log(sym_sqrt(pv)) for pv in piv[1:]), Sym.const(0.0)) * Sym.const(2.0)
+    # the input validation (an eigenvalue decomposition used only as a yes/no predicate) is replaced by its contract: the matrix IS
+    # a valid correlation matrix (unit diagonal by construction, positive pivots assumed above)
+    from unittest import mock
+    with S.mode(), mock.patch("gpytorch.priors.lkj_prior._is_valid_correlation_matrix", lambda *a, **k: True):
+        if cov:
+            sd = S.rand(n, lo=0.6, hi=1.5)
+            SD = S.sym_tensor(sd, "sd", positive=True)
+            sd_prior = P.GammaPrior(torch.tensor(2.0), torch.tensor(1.5))
+            pr = P.LKJCovariancePrior(n, eta, sd_prior)
+            lp = pr.log_prob(Cm * sd.unsqueeze(-1) * sd.unsqueeze(-2))
+        else:
+            pr = P.LKJPrior(n, eta)
+            lp = pr.log_prob(Cm)
+    corr_ref = Sym.const(logc) + logdet * Sym.const(eta - 1.0)
+    if not cov:
+        S.prove_eq(lp, np.array(corr_ref, dtype=object).reshape(()), "LKJ prior log_prob = log c_n(eta) + (eta - 1) log det C (n=%d, eta=%s)" % (n, eta))
+        return
+    lsd = [Sym.const(2.0 * math.log(1.5) - math.lgamma(2.0)) + sym_log(SD[i]) - SD[i] * Sym.const(1.5) for i in range(n)]
+    lp_s = as_sym_arr(SH.get(lp))
+    S.check_concrete(lp_s.shape == (), "LKJCOV-JOINT the log density of ONE covariance matrix is one number (log p_corr + sum_i log p(sd_i))",
+                     "log_prob returned shape %s" % (lp_s.shape,))
+    if lp_s.shape == ():
+        S.prove_eq(lp, np.array(corr_ref + sum(lsd, Sym.const(0.0)), dtype=object).reshape(()), "LKJCovariance prior log_prob = log p_corr(C) + sum_i log p(sd_i)")
+    elif lp_s.shape == (n,):
+        # the library's convention (pinned by its tests): element i = log p_corr(C) + log p(sd_i); each part is still checked
+        for i in range(n):
+            S.prove_eq(np.array([lp_s[i]], dtype=object), np.array([corr_ref + lsd[i]], dtype=object),
+                       "LKJCovariance prior element %d = log p_corr(C) + log p(sd_%d)" % (i, i))
+
+
 def intersect(S, kind):
     """Interval.intersect / register_constraint(replace=False): the resulting constraint is the intersection of the bounds with the
        SAME transform, its transform maps every raw value into that intersection, and the module uses it"""
@@ -458,6 +519,7 @@ def registered_prior(S):
 
 
 def scenarios(tier, seed):
+    lkj_ = [dict(n=3, eta=2.5, cov=False), dict(n=2, eta=0.5, cov=False), dict(n=3, eta=1.0, cov=False)]
     out = []
     def add(fn, **p):
         out.append({"sid": fn + ":" + ",".join("%s=%s" % kv for kv in sorted(p.items())), "fn": fn, "params": p})
@@ -481,4 +543,6 @@ def scenarios(tier, seed):
     for kind in ("normal", "gamma", "halfnormal", "halfcauchy", "mvn", "mvn_cov"):
         add("prior_expand", kind=kind)
     add("registered_prior")
+    for prm in lkj_ + ([dict(n=3, eta=2.0, cov=True)] if True else []):
+        add("lkj", **prm)
     return out
